@@ -13,6 +13,7 @@ import Driver.Version
 import Driver.Validate
 import Driver.Cache
 import Driver.Apply
+import Driver.Purity
 open Lean
 
 def dispatch (j : Json) : Except String Json := do
@@ -26,6 +27,7 @@ def dispatch (j : Json) : Except String Json := do
   | "validate" => Driver.Validate.handle j
   | "cache" => Driver.Cache.handle j
   | "apply" => Driver.Apply.handle j
+  | "purity" => Driver.Purity.handle j
   | _ => throw s!"unknown stream {stream}"
 
 partial def loop (hin hout : IO.FS.Stream) : IO Unit := do
